@@ -339,6 +339,22 @@ ADDED8 = {
  "C20": "Level shared-files: two complete runs on the real file system, shared files are never rewritten in place.",
 }
 
+ADDED9 = {
+ "C01": "Annotation with a 30-bp last-but-one exon (polyA two exons before the end).",
+ "C02": "Discarded-model worlds (rare exon-skipping reads plus partial reads); feature ids starting with '__' or '#'.",
+ "C03": "Reference transcript with touching exon records.",
+ "C05": "Two experiments in one invocation (ordered pairs of record placements).",
+ "C06": "Reads with BAM tags, configurations with --bam_tags.",
+ "C08": "L1 records of the second chromosome in a cluster of another extent.",
+ "C10": "Reference with ids of an earlier IsoQuant run.",
+ "C11": "Reads with aligned polyT head and aligned polyA tail at once.",
+ "C12": "Partly incomplete annotation in three representations; BAM files whose headers list one sequence each.",
+ "C14": "Annotated introns inside another isoform's terminal exons.",
+ "C15": "Strings of up to 80 thousand characters.",
+ "C17": "exon_id attributes on CDS / UTR records; reference ids naming another chromosome.",
+ "C20": "Borrowed-conversion histories on the real file system (kill, owner replaces or removes the folder, resume).",
+}
+
 
 def main():
     props = [json.loads(l) for l in open(os.path.join(HERE, "properties.jsonl"))]
@@ -348,7 +364,7 @@ def main():
         pid = p["id"]
         if pid in CHECKS:
             level, tech, text, note, ref = CHECKS[pid]
-            text = text + ADDED.get(pid, "") + (" " + ADDED2[pid] if pid in ADDED2 else "") + (" " + ADDED3[pid] if pid in ADDED3 else "") + (" " + ADDED4[pid] if pid in ADDED4 else "") + (" " + ADDED5[pid] if pid in ADDED5 else "") + (" " + ADDED6[pid] if pid in ADDED6 else "") + (" " + ADDED7[pid] if pid in ADDED7 else "") + (" " + ADDED8[pid] if pid in ADDED8 else "")
+            text = text + ADDED.get(pid, "") + (" " + ADDED2[pid] if pid in ADDED2 else "") + (" " + ADDED3[pid] if pid in ADDED3 else "") + (" " + ADDED4[pid] if pid in ADDED4 else "") + (" " + ADDED5[pid] if pid in ADDED5 else "") + (" " + ADDED6[pid] if pid in ADDED6 else "") + (" " + ADDED7[pid] if pid in ADDED7 else "") + (" " + ADDED8[pid] if pid in ADDED8 else "") + (" " + ADDED9[pid] if pid in ADDED9 else "")
             checks.append({
                 "property_id": pid,
                 "quick_cmd": "./check %s --tier quick" % pid,
